@@ -25,7 +25,13 @@ use std::time::Instant;
 #[global_allocator]
 static GLOBAL: SimAlloc = SimAlloc;
 
-const VERIF: &str = "/verif";
+const VERIF_DEFAULT: &str = "/verif";
+
+/// Output root (work/, replays/, evidence/). `ANYSIM_HOME` redirects it for isolated campaigns;
+/// KNOWN_FINDINGS.txt is always read from /verif.
+fn home() -> String {
+    std::env::var("ANYSIM_HOME").unwrap_or_else(|_| VERIF_DEFAULT.to_string())
+}
 
 static HEARTBEAT: std::sync::atomic::AtomicU64 = std::sync::atomic::AtomicU64::new(0);
 #[inline]
@@ -415,7 +421,7 @@ fn worker(args: &[String]) {
 fn violates(prop: &str, prof: &Profile, s: &Scenario, class: Class, crash: bool) -> Option<Violation> {
     if crash {
         // each candidate in a fresh process
-        let tmp = format!("{}/work/shrink-{}.scn", VERIF, std::process::id());
+        let tmp = format!("{}/work/shrink-{}.scn", &home(), std::process::id());
         std::fs::write(&tmp, scn::to_text(s, "", prop, "crash", "")).ok()?;
         let st = std::process::Command::new(std::env::current_exe().ok()?).args(["replay", &tmp, "--quiet"]).output().ok()?;
         let died = st.status.code().is_none() || st.status.code() == Some(134);
@@ -582,7 +588,7 @@ struct Known {
 }
 fn known_findings() -> Vec<Known> {
     let mut v = Vec::new();
-    if let Ok(t) = std::fs::read_to_string(format!("{}/KNOWN_FINDINGS.txt", VERIF)) {
+    if let Ok(t) = std::fs::read_to_string(format!("{}/KNOWN_FINDINGS.txt", VERIF_DEFAULT)) {
         for l in t.lines() {
             let l = l.trim();
             if let Some(rest) = l.strip_prefix("finding:") {
@@ -668,7 +674,7 @@ fn hash_sweep(exe: &std::path::Path, prop: &str, n: u64, jobs: u64) -> BTreeMap<
 /// logs; the no-alloc library artefact must not contain a heap back end or allocator calls.
 fn c19_differential(prop: &str, tier: &str, reported: &mut Vec<(String, String, String)>, infos: &[WorldInfo]) -> String {
     let exe = std::env::current_exe().unwrap();
-    let na = std::path::PathBuf::from(format!("{}/target-noalloc/release/anysim", VERIF));
+    let na = std::path::PathBuf::from(format!("{}/target-noalloc/release/anysim", &home()));
     if !na.exists() {
         die2("no-alloc build of anysim is missing (run ./check --build-only)");
     }
@@ -688,7 +694,7 @@ fn c19_differential(prop: &str, tier: &str, reported: &mut Vec<(String, String, 
     if let Some(i) = first {
         let seed = batch_seed();
         let out = std::process::Command::new(&exe).args(["emit", prop, tier, &seed.to_string(), &i.to_string(), "0"]).output().unwrap_or_else(|e| die2(&format!("emit: {}", e)));
-        let path = format!("{}/replays/{}-diff-{}.replay", VERIF, prop, i);
+        let path = format!("{}/replays/{}-diff-{}.replay", &home(), prop, i);
         let mut txt = String::from_utf8_lossy(&out.stdout).to_string();
         txt = txt.replace("expect crash", "expect build-differential");
         txt.push_str(&format!("# default build : {}\n# no-alloc build: {}\n", a.get(&i).cloned().unwrap_or_default(), b.get(&i).cloned().unwrap_or_default()));
@@ -699,7 +705,7 @@ fn c19_differential(prop: &str, tier: &str, reported: &mut Vec<(String, String, 
     let mut heap_syms = 0usize;
     let mut alloc_refs = 0usize;
     let mut inspected = String::from("no libany_vec rlib found");
-    if let Ok(rd) = std::fs::read_dir(format!("{}/target-noalloc/release/deps", VERIF)) {
+    if let Ok(rd) = std::fs::read_dir(format!("{}/target-noalloc/release/deps", &home())) {
         for e in rd.flatten() {
             let name = e.file_name().to_string_lossy().to_string();
             if name.starts_with("libany_vec-") && name.ends_with(".rlib") {
@@ -713,7 +719,7 @@ fn c19_differential(prop: &str, tier: &str, reported: &mut Vec<(String, String, 
         }
     }
     if heap_syms > 0 || alloc_refs > 0 {
-        let path = format!("{}/replays/{}-artefact.txt", VERIF, prop);
+        let path = format!("{}/replays/{}-artefact.txt", &home(), prop);
         std::fs::write(&path, format!("{}: {} heap back end symbol(s), {} allocator reference(s) in the no-default-features build\n", inspected, heap_syms, alloc_refs)).ok();
         reported.push(("noalloc-artefact".to_string(), path, format!("no-alloc library artefact contains {} heap back end symbol(s) and {} allocator reference(s)", heap_syms, alloc_refs)));
     }
@@ -797,7 +803,7 @@ fn c18_probes(tier: &str, workdir: &str, reported: &mut Vec<(String, String, Str
             known_hit.push((k.sig.clone(), k.text.clone()));
             continue;
         }
-        let path = format!("{}/replays/C18-{}.replay", VERIF, sig.replace('/', "-"));
+        let path = format!("{}/replays/C18-{}.replay", &home(), sig.replace('/', "-"));
         std::fs::write(&path, format!("anysim-probe v1\nproperty C18\n# {}\n# re-run: anysim probe <elem> <kind> <n> <prefill> <blackbox file>\nexpect {}\n", detail, sig)).ok();
         reported.push((sig, path, detail));
     }
@@ -822,11 +828,11 @@ fn check(prop: &str, tier: &str) -> i32 {
     if !infos.iter().any(|w| (prof.world_ok)(w)) {
         die2("no world eligible");
     }
-    let workdir = format!("{}/work/{}-{}-{}", VERIF, prop, tier, std::process::id());
+    let workdir = format!("{}/work/{}-{}-{}", &home(), prop, tier, std::process::id());
     let _ = std::fs::remove_dir_all(&workdir);
     std::fs::create_dir_all(&workdir).unwrap_or_else(|e| die2(&format!("mkdir {}: {}", workdir, e)));
-    std::fs::create_dir_all(format!("{}/replays", VERIF)).ok();
-    std::fs::create_dir_all(format!("{}/evidence", VERIF)).ok();
+    std::fs::create_dir_all(format!("{}/replays", &home())).ok();
+    std::fs::create_dir_all(format!("{}/evidence", &home())).ok();
     let exe = std::env::current_exe().unwrap();
     let start = Instant::now();
     eprintln!("[anysim] property {} tier {} VERIF_SEED={} runs<={} cap={}s jobs={}", prop, tier, seed, t.runs, t.cap_s, jobs);
@@ -1019,7 +1025,7 @@ fn check(prop: &str, tier: &str) -> i32 {
         if sig.starts_with("unsupported") {
             unsupported_seen = true;
             eprintln!("[anysim] harness: unsupported step variant reached: {} ({})", sig, file);
-            let _ = std::fs::copy(file, format!("{}/replays/harness-{}.scn", VERIF, prop));
+            let _ = std::fs::copy(file, format!("{}/replays/harness-{}.scn", &home(), prop));
             continue;
         }
         // reproduce and minimise in a disposable sub-process: a violation may corrupt memory
@@ -1043,7 +1049,7 @@ fn check(prop: &str, tier: &str) -> i32 {
                 eprintln!("[anysim]   crash not owned by {}: {}", prop, v0.detail);
                 continue;
             }
-            std::fs::create_dir_all(format!("{}/work", VERIF)).ok();
+            std::fs::create_dir_all(format!("{}/work", &home())).ok();
             let (m, _) = if violates(prop, &prof, &parsed.scn, Class::Crash, true).is_some() { shrink(prop, &prof, &parsed.scn, &v0, shrink_budget) } else { (parsed.scn.clone(), v0.clone()) };
             let mut v = crash_violation(&m, &infos, v0.detail.clone());
             v.context = format!("{}", m.steps.last().map(|s| s.op.name()).unwrap_or("nop"));
@@ -1056,7 +1062,7 @@ fn check(prop: &str, tier: &str) -> i32 {
         }
         let name = infos.iter().find(|i| i.id == min.world).map(|i| i.name()).unwrap_or_default();
         let h = scn::scenario_hash(&min);
-        let path = format!("{}/replays/{}-{:016x}.replay", VERIF, prop, h);
+        let path = format!("{}/replays/{}-{:016x}.replay", &home(), prop, h);
         let detail = if vmin.class == Class::Triage { vmin.detail.clone() } else { format!("step {}: {}", vmin.step, vmin.detail) };
         std::fs::write(&path, scn::to_text(&min, &name, prop, &msig, &detail)).unwrap_or_else(|e| die2(&format!("write {}: {}", path, e)));
         // confirm in a fresh process
@@ -1085,7 +1091,7 @@ fn check(prop: &str, tier: &str) -> i32 {
             eprintln!("[anysim]   crash not owned by {}: {}", prop, why);
             continue;
         }
-        std::fs::create_dir_all(format!("{}/work", VERIF)).ok();
+        std::fs::create_dir_all(format!("{}/work", &home())).ok();
         let (min, _) = if violates(prop, &prof, &parsed.scn, Class::Crash, true).is_some() { shrink(prop, &prof, &parsed.scn, &v0, shrink_budget) } else { (parsed.scn.clone(), v0.clone()) };
         let sig = format!("crash/{}", min.steps.last().map(|s| s.op.name()).unwrap_or("nop"));
         if let Some(k) = known.iter().find(|k| k.prop == prop && k.sig == sig) {
@@ -1096,7 +1102,7 @@ fn check(prop: &str, tier: &str) -> i32 {
             continue;
         }
         let name = infos.iter().find(|i| i.id == min.world).map(|i| i.name()).unwrap_or_default();
-        let path = format!("{}/replays/{}-{:016x}.replay", VERIF, prop, scn::scenario_hash(&min));
+        let path = format!("{}/replays/{}-{:016x}.replay", &home(), prop, scn::scenario_hash(&min));
         std::fs::write(&path, scn::to_text(&min, &name, prop, &sig, why)).ok();
         reported.push((sig, path, why.clone()));
     }
@@ -1167,7 +1173,7 @@ fn check(prop: &str, tier: &str) -> i32 {
     ev.push_str(&format!("  \"wall_s\": {:.2},\n", wall));
     ev.push_str(&format!("  \"violations\": {}\n", reported.len()));
     ev.push_str("}\n");
-    let evpath = format!("{}/evidence/{}.json", VERIF, prop);
+    let evpath = format!("{}/evidence/{}.json", &home(), prop);
     std::fs::write(&evpath, ev).unwrap_or_else(|e| die2(&format!("write {}: {}", evpath, e)));
 
     for g in &gaps {
